@@ -2,7 +2,7 @@
 and the provenance of every field of the conflict error.  All role-anchored on MIR facts."""
 import re
 
-from .mir import Mir, Exprs, canon, strip_transparent, borrow_root, natural_loops, Call, place_str
+from .mir import Mir, Exprs, canon, strip_transparent, borrow_root, natural_loops, Call, place_str, control_deps_transitive
 
 NARROWING = ("skip", "take", "step_by", "filter", "take_while", "skip_while", "nth", "last", "find", "rev", "filter_map", "map_while", "position", "peekable", "fuse", "scan", "flat_map", "zip", "chain", "cycle")
 MAP_WRITERS = ("insert", "entry", "extend", "get_mut", "remove", "remove_entry", "retain", "clear", "drain", "values_mut", "iter_mut", "get_or_insert_with", "try_insert", "get_many_mut", "get_disjoint_mut", "extract_if", "raw_entry_mut")
@@ -213,8 +213,60 @@ def check_scan(st, res, rule):
                     okl = True
                 if re.match(r"^IntoIterator@\w+::into_iter\(Iterator::enumerate\(slice::iter\((Deref@Oset::deref\()?param1\.machine\.states\)?\)\)\)$", it):
                     okl = True
-            # early exits other than `?`/exhaustion
-            res.inst(rule, "loop|%s" % fn.path, fn.where, True, "iterates %s" % desc)
+            # the scan cannot be bypassed: no normal return is reachable from the entry without entering the loop
+            work, seen_b = [0], set()
+            bypass = None
+            while work:
+                x = work.pop()
+                if x in seen_b or x == h or fn.blocks[x]["cleanup"]:
+                    continue
+                seen_b.add(x)
+                if fn.blocks[x]["term"]["k"] == "return":
+                    bypass = x
+                    break
+                work.extend(fn.succs(x))
+            if bypass is not None:
+                res.violate(rule, "loop-bypass|%s" % fn.path, fn.where, "%s can return without entering its scan loop: some states/items are never examined (their actions are missing and their conflicts unreported)" % fn.path)
+            res.inst(rule, "loop|%s" % fn.path, fn.where, True, "iterates %s; bypass: %s" % (desc, bypass is not None))
             if not okl:
                 res.violate(rule, "loop-range|%s" % fn.path, fn.where, "loop in %s does not range over all states (0..states.len()) or over the whole item set of the state: %s" % (fn.path, desc))
     res.floor("loops on the way to the conflict detector", n, 2)
+
+
+def check_guards(st, res, rule):
+    """no call on the way to the conflict detector may be skipped because of what the action map already holds:
+    the calls towards the detector are control-dependent only on the shape of the item / rule (and on `?` of earlier
+    calls), never on a value read from the builder"""
+    mir = st.mir
+    n = 0
+    targets = set(st.chain) | {st.writer.key}
+    for k in sorted(st.chain):
+        fn = mir.fns[k]
+        if fn.key == st.writer.key:
+            continue
+        bp = [i + 1 for i, ty in enumerate(fn.inputs) if ty["head"].endswith("TableBuilder")]
+        if not bp:
+            continue
+        ex = None
+        cdt = None
+        for c in fn.calls():
+            if not (c.local and c.rkey in targets):
+                continue
+            n += 1
+            ex = ex or Exprs(fn)
+            cdt = cdt or control_deps_transitive(fn)
+            bad = []
+            for (a, s_) in cdt.get(c.bb, ()):
+                t_ = fn.blocks[a]["term"]
+                if t_["k"] != "switch":
+                    continue
+                ce = canon(ex.operand(t_["discr"]))
+                if ce.startswith("discr(Try@Result::branch("):
+                    continue
+                if any(re.search(r"\bparam%d\b" % b, ce) for b in bp):
+                    bad.append(ce)
+            res.inst(rule, "guard|%s->%s" % (fn.path.rsplit("::", 1)[-1], (c.rpath or "?").rsplit("::", 1)[-1]), c.where, True, "%d builder-dependent guards" % len(bad))
+            for ce in bad[:1]:
+                res.violate(rule, "guard|%s->%s" % (fn.path.rsplit("::", 1)[-1], (c.rpath or "?").rsplit("::", 1)[-1]), c.where,
+                            "the call of `%s` is skipped depending on what the action map already holds (`%s`): a second, different action for an occupied cell never reaches the conflict detector" % (c.rpath, ce[:160]))
+    res.floor("calls on the way to the conflict detector checked for builder-dependent guards", n, 5)
